@@ -156,8 +156,10 @@ WDone ==
   /\ UNCHANGED <<kind, bs, n, bad, inPos, inEof, outLen, call, zs, post>> /\ UR /\ UW /\ UH /\ UNCHANGED <<emit, zrun, panic, hist>>
 
 (* ---- kind = "writer": the caller is the environment ---- *)
+Rest == IF A!InLen - inPos <= MaxReq THEN {A!InLen - inPos} ELSE {}     \* everything that is left, in one Write
 WWrite(len) ==
-  /\ kind = "writer" /\ pc = "idle" /\ ~inEof /\ len \in Reqs /\ len >= 1 /\ inPos + len <= A!InLen
+  \* (a Write of one of the catalogue sizes, or of everything that is left)
+  /\ kind = "writer" /\ pc = "idle" /\ ~inEof /\ len \in (Reqs \cup Rest) /\ len >= 1 /\ inPos + len <= A!InLen
   /\ inPos' = inPos + len /\ WriteBody(len) /\ pc' = "w_flush" /\ H([op |-> "write", len |-> len])
   /\ UNCHANGED <<kind, bs, n, bad, inEof, outLen, fin, call, zs, post>> /\ UR /\ UH /\ UNCHANGED <<emit, zrun, panic>>
 
@@ -222,7 +224,7 @@ EChunk ==
 Next == \/ \E b \in Reqs : RCall(b)
         \/ \E x \in SrcKs, e \in BOOLEAN : RSrc(Min(x, Min(rBuf - rN, n - inPos)), e)
         \/ RLoopExit \/ RPad \/ RRet
-        \/ \E l \in Reqs : WWrite(l)
+        \/ \E l \in (Reqs \cup Rest) : WWrite(l)
         \/ WFinalCall \/ WFlush \/ WFinal \/ WDone
         \/ DStart \/ (\E x \in SrcKs, e \in BOOLEAN : DSrc(Min(x, Min(Chunk - hN, A!InLen - inPos)), e)) \/ DChunk
         \/ EStart \/ ERead \/ EGot \/ EChunk
